@@ -77,6 +77,9 @@ func init() {
 		Gen: func(t *rapid.T, thorough bool) *Script {
 			o := mixedOpts(thorough)
 			o.Faults, o.MIG, o.MinRuntime = false, false, true
+			if chance(t, "protectedelastic", 25) {
+				return GenProtectedElasticScript(t, "C06", o)
+			}
 			return GenScript(t, "C06", "victims", o)
 		},
 		Oracles: func() []Oracle { return []Oracle{VictimOracle{}} },
@@ -218,6 +221,9 @@ func init() {
 			o := mixedOpts(thorough)
 			o.MIG = false
 			o.Faults = chance(t, "faulty", 40) // failing bind / evict API calls in the middle of a commit
+			if chance(t, "sharedpressure", 35) {
+				return GenSharedGPUScript(t, "C02", o)
+			}
 			return GenScript(t, "C02", "fraction-heavy", o)
 		},
 		Oracles: func() []Oracle { return []Oracle{&CapacityOracle{prop: "C02"}} },
